@@ -125,10 +125,49 @@ def scen():
     return bad
 
 
+def scen_simple(ctx):
+    """SimpleQueue: every pipe operation happens with its lock held, the locks are free afterwards, objects round-trip"""
+    bad = []
+    sq = ctx.SimpleQueue()
+    held = []
+
+    class Spy:
+        def __init__(self, real, lock, what):
+            self.real, self.lock, self.what = real, lock, what
+
+        def recv_bytes(self, *a):
+            held.append((self.what, self.lock is None or self.lock._semlock._is_mine()))
+            return self.real.recv_bytes(*a)
+
+        def send_bytes(self, *a):
+            held.append((self.what, self.lock is None or self.lock._semlock._is_mine()))
+            return self.real.send_bytes(*a)
+
+        def __getattr__(self, n):
+            return getattr(self.real, n)
+    sq._reader = Spy(sq._reader, sq._rlock, 'read')
+    sq._writer = Spy(sq._writer, sq._wlock, 'write')
+    items = [0, 'x', (1, [2, 3]), None, {'k': b'v'}]
+    for it in items:
+        sq.put(it)
+    got = [sq.get() for _ in items]
+    if got != items:
+        bad.append('SimpleQueue: put %r, got %r' % (items, got))
+    if len(held) != 2 * len(items) or not all(h for _, h in held):
+        bad.append('SimpleQueue: pipe operations and whether their lock was held: %r' % (held,))
+    for name, lock in (('reader', sq._rlock), ('writer', sq._wlock)):
+        if lock is not None:
+            if not lock.acquire(False):
+                bad.append('SimpleQueue: the %s lock is still held after the operations' % name)
+            else:
+                lock.release()
+    return bad
+
+
 def main():
     data = json.load(open(sys.argv[1]))
     print('replay of %s / %s' % (data['function'], data['obligation']))
-    bad = scen()
+    bad = scen() + scen_simple(billiard.get_context())
     for b in bad[:8]:
         print('  violation on real code: ' + b)
     print('REPRODUCED on real code' if bad else 'not reproduced')
